@@ -1122,3 +1122,181 @@ def inplace_checks(api, rng):
                     if snap(xx) != snap(env["x0"]):
                         out.append(finding(key, "`a %s x` changes its right operand" % sym, Call("", [], code, [])))
     return out, n
+
+
+# ====================================================================== boundary probes from the source
+import ast as _ast, textwrap as _textwrap
+
+# documented domains used to classify an exception at a boundary value (inside: raises-in-domain)
+DOMAINS = {"Epoch.tt2ut": {"year": (-2000, 3000), "month": (1, 12)}}
+MONTHLIKE = {"month": (1, 12), "mm": (1, 12)}
+
+
+def _num_const(n):
+    if isinstance(n, _ast.Constant) and isinstance(n.value, (int, float)) and not isinstance(n.value, bool):
+        return n.value
+    if isinstance(n, _ast.UnaryOp) and isinstance(n.op, _ast.USub):
+        v = _num_const(n.operand)
+        return -v if v is not None else None
+    if isinstance(n, _ast.UnaryOp) and isinstance(n.op, _ast.UAdd):
+        return _num_const(n.operand)
+    return None
+
+
+def _func_ast(func):
+    try:
+        return _ast.parse(_textwrap.dedent(inspect.getsource(func)))
+    except Exception:
+        return None
+
+
+def comparison_constants(api, fn, depth=2):
+    """numeric constants compared against something in the source of fn and of the functions of the
+    same class / module it calls (depth 2): list of (constant, names in the comparison, own body?)"""
+    out, seen = [], set()
+    M = api.mods[fn.mod]
+    cls = api.classes.get(fn.cls) if fn.cls else None
+
+    def resolve(name):
+        if cls is not None and name in vars(cls):
+            v = vars(cls)[name]
+            return v.__func__ if isinstance(v, (staticmethod, classmethod)) else v
+        v = vars(M).get(name)
+        return v if inspect.isfunction(v) and getattr(v, "__module__", None) == M.__name__ else None
+
+    def walk(func, d, own):
+        if func in seen or not inspect.isfunction(func): return
+        seen.add(func)
+        tree = _func_ast(func)
+        if tree is None: return
+        for n in _ast.walk(tree):
+            if isinstance(n, _ast.Compare):
+                names = {x.id for x in _ast.walk(n) if isinstance(x, _ast.Name)}
+                for side in [n.left] + list(n.comparators):
+                    c = _num_const(side)
+                    if c is not None and math.isfinite(c):
+                        out.append((c, names if own else set(), own))
+            elif isinstance(n, _ast.Call) and d > 0:
+                f = n.func
+                name = None
+                if isinstance(f, _ast.Name): name = f.id
+                elif isinstance(f, _ast.Attribute) and isinstance(f.value, _ast.Name) and \
+                        f.value.id in ("self", fn.cls or "", "cls"):
+                    name = f.attr
+                if name and name != "main":
+                    g = resolve(name)
+                    if g is not None: walk(g, d - 1, False)
+    walk(fn.func, depth, True)
+    return out
+
+
+def boundary_values(c, integral_only):
+    vals = [c]
+    if float(c).is_integer():
+        vals.append(int(c))
+        if not integral_only: vals.append(float(c))
+    r1 = [c - 1, c + 1]
+    r2 = [] if integral_only else [math.nextafter(float(c), -math.inf), math.nextafter(float(c), math.inf)]
+    return vals, r1, r2
+
+
+def boundary_calls(api, fn, bases, obs, cap):
+    """in-domain-by-type probes at the comparison constants of the source, for every numeric scalar
+    parameter; deterministic order: constants compared with the parameter itself first, exact values
+    before +-1 before +-1ulp, parameters interleaved; at most `cap` per function"""
+    consts = comparison_constants(api, fn)
+    if not consts: return []
+    rounds = [[], [], [], [], [], []]     # primary exact, primary +-1, primary ulp, secondary exact, +-1, ulp
+    for base in bases:
+        env = dict(api.ns)
+        for v, s in base.setup:
+            if v == "s": continue
+            try:
+                val = eval(s, env)
+            except Exception:
+                continue
+            if isinstance(val, bool) or not isinstance(val, (int, float)): continue
+            pname = param_of_var(fn, base, v)
+            docks = kinds_of_doc(fn.types.get(pname)) or set()
+            okinds = obs.get(fn.key, {}).get(pname, set())
+            integral_only = isinstance(val, int) and "float" not in docks and "float" not in okinds
+            prim = sorted({c for c, names, own in consts if own and pname in names})
+            sec = sorted({c for c, names, own in consts} - set(prim))
+            for k, cs in ((0, prim), (3, sec)):
+                for c in cs:
+                    if integral_only and not float(c).is_integer(): continue
+                    a, b, u = boundary_values(c, integral_only)
+                    for j, vs in enumerate((a, b, u)):
+                        for x in vs:
+                            rounds[k + j].append((pname, base.with_arg(v, repr(x) if isinstance(x, int) else fsrc(x))))
+    out, seen = [], set()
+    for r in rounds:
+        for pname, c in r:
+            code = c.code()
+            if code in seen: continue
+            seen.add(code)
+            c.origin = "boundary:" + pname
+            out.append((pname, c))
+            if len(out) >= cap: return out
+    return out
+
+
+def in_stated_domain(fn, call):
+    """True/False when every numeric argument with a stated domain is inside/outside it, None if no domain is stated"""
+    dom = dict(MONTHLIKE) if fn.cls == "Epoch" else {}
+    dom.update(DOMAINS.get(fn.key, {}))
+    if fn.key not in DOMAINS: return None
+    ok = True
+    for v, s in call.setup:
+        if v == "s": continue
+        p = param_of_var(fn, call, v)
+        if p in dom:
+            try:
+                x = eval(s, {"float": float})
+            except Exception:
+                continue
+            if isinstance(x, (int, float)) and not (dom[p][0] <= x <= dom[p][1]): ok = False
+    return ok
+
+
+def check_boundary(api, fn, pname, call, shapes):
+    """totality and determinism at a boundary value: an exception other than TypeError/ValueError is a
+    finding everywhere; TypeError/ValueError is a finding only inside a stated domain"""
+    out = []
+    o1 = run_call(api, call, check_state=False)
+    if o1.setup_exc is not None: return out, "setup"
+    inside = in_stated_domain(fn, call)
+    if o1.exc is not None:
+        cls = type(o1.exc).__name__
+        if isinstance(o1.exc, (TypeError, ValueError)):
+            if inside:
+                out.append(finding("raises-in-domain:" + fn.key, "%s raises %s (%s) at a boundary value of '%s' inside its documented domain" % (
+                    fn.key, cls, str(o1.exc)[:60], pname), call))
+            return out, "rejected"
+        key = ("raises-in-domain:" if inside else "wrong-exception:") + fn.key
+        out.append(finding(key, "%s raises %s (%s) at a boundary value of '%s' (a comparison constant of its source), not TypeError/ValueError" % (
+            fn.key, cls, str(o1.exc)[:60], pname), call))
+        return out, cls
+    for v in o1.pre:
+        if o1.pre[v] != o1.post[v] and not (v == "s" and fn.key in MUTATORS):
+            out.append(finding("mutates-argument:" + fn.key, "%s (boundary value of '%s') changes %s" % (fn.key, pname, v), call))
+    why = non_value(o1.result)
+    if why is None and o1.result is None and fn.kind != "ctor":
+        rec = (shapes or {}).get(fn.key)
+        if rec is not None and "None" not in rec and fn.key not in DOCUMENTED_NONE:
+            why = "None (no documented call of this function returns None)"
+    if why:
+        out.append(finding("returns-non-value:" + fn.key, "%s silently returns %s at a boundary value of '%s'" % (fn.key, why, pname), call))
+    elif fn.kind != "ctor":
+        if rtype_ok(api, fn, o1.result) is False and not (o1.result is None and fn.key in DOCUMENTED_NONE):
+            out.append(finding("wrong-result-type:" + fn.key, "%s returns %s at a boundary value of '%s', documented :rtype: %s" % (
+                fn.key, shape(o1.result), pname, fn.rtype), call))
+        sh = shape(o1.result)
+        if shapes is not None and fn.key in shapes and sh not in shapes[fn.key]:
+            out.append(finding("wrong-result-shape:" + fn.key, "%s returns %s at a boundary value of '%s'; recorded shapes: %s" % (
+                fn.key, sh, pname, sorted(shapes[fn.key])), call))
+    o2 = run_call(api, call, check_state=False)
+    if not same_outcome(o1, o2):
+        out.append(finding("nondeterministic:" + fn.key, "%s gives %s, then %s on equal boundary arguments" % (
+            fn.key, describe(o1), describe(o2)), call, call.code() + "; r1 = r; " + call.code() + "; r = (r1, r)"))
+    return out, "value"
